@@ -127,6 +127,9 @@ class Interp:
         if name in self.stubs:
             return self.stubs[name]
         scope = env.func
+        if name in ("__name__", "__file__") and scope is not None and self.m.binding_scope(scope, name) is None:
+            mod_ = scope.module if isinstance(scope, Func) or hasattr(scope, "methods") else scope
+            return mod_.name if name == "__name__" else mod_.path
         os_ = self.m.lookup_name(scope, name) if scope is not None else frozenset()
         funcs = [o for o in os_ if o[0] == "func"]
         classes = [o for o in os_ if o[0] == "class"]
@@ -166,6 +169,9 @@ class Interp:
         mods = [o for o in os_ if o[0] == "module"]
         if len(mods) == 1:
             return ("module", mods[0][1])
+        if name in ("__name__", "__file__") and scope is not None:
+            mod_ = scope if not isinstance(scope, Func) and not hasattr(scope, "methods") else scope.module
+            return mod_.name if name == "__name__" else mod_.path
         raise AnalysisError(f"evaluator: cannot resolve name {name!r} in {getattr(scope, 'qualname', scope)}")
 
     def higher_order(self, name):
@@ -288,7 +294,28 @@ class Interp:
             self.exec_block(func.node.body, env)
         except _Return as r:
             return r.value
+        except AbsRaise as e_:
+            self.tb_here(e_.value, env)
+            raise
         return None
+
+    def tb_here(self, exc, env):
+        """Traceback model (only for exception objects that ask for it with a `__tb_tracking__` attribute): like the
+        interpreter, each frame an exception unwinds through - or is caught in - contributes one entry at the head of the
+        chain, once.  The frame object shows the function's code, its module globals' names and its *live* local variables."""
+        if not (isinstance(exc, Obj) and exc.attrs.get("__tb_tracking__")):
+            return
+        seen = exc.attrs.setdefault("__tb_envs__", [])
+        if any(x is env for x in seen):
+            return
+        seen.append(env)
+        f = env.func
+        mod_ = f.module if isinstance(f, Func) else f
+        frame = Obj(None, {"f_code": Obj(None, {"co_filename": getattr(mod_, "path", "?"), "co_name": getattr(f, "name", "<module>")}, name="code"),
+                           "f_globals": {"__name__": getattr(mod_, "name", "?"), "__file__": getattr(mod_, "path", "?")},
+                           "f_locals": env.vars, "f_back": None, "f_lineno": 0}, name=f"frame:{getattr(f, 'short', '?')}")
+        exc.attrs["__traceback__"] = Obj(None, {"tb_next": exc.attrs.get("__traceback__"), "tb_frame": frame, "tb_lineno": 0, "tb_lasti": 0},
+                                         name=f"tb:{getattr(f, 'short', '?')}")
 
     # ------------------------------------------------------------------ statements
     def exec_block(self, stmts, env):
@@ -359,7 +386,18 @@ class Interp:
                 # bare raise: the exception being handled
                 cur = getattr(self, "_handling", [])
                 raise AbsRaise(cur[-1] if cur else None)
-            raise AbsRaise(self.eval(s.exc, env))
+            exc_ = self.eval(s.exc, env)
+            if isinstance(exc_, ClassVal):
+                exc_ = self.call(exc_, [], {})
+            if isinstance(exc_, Obj):
+                if getattr(self, "track_tb", False):
+                    exc_.attrs.setdefault("__tb_tracking__", True)
+                cur = getattr(self, "_handling", [])
+                if s.cause is not None:
+                    exc_.attrs["__cause__"] = self.eval(s.cause, env)
+                if cur and cur[-1] is not exc_:
+                    exc_.attrs.setdefault("__context__", cur[-1])
+            raise AbsRaise(exc_)
         elif isinstance(s, ast.Try):
             try:
                 try:
@@ -368,6 +406,7 @@ class Interp:
                     if not s.handlers:
                         raise
                     h = s.handlers[0]
+                    self.tb_here(e.value, env)
                     if h.name:
                         env.vars[h.name] = e.value
                     if not hasattr(self, "_handling"):
@@ -730,6 +769,8 @@ class Interp:
                                 return lv
                             fb = lv
                         return Stub(g[1], fb)
+            if attr in ("__file__", "__name__"):
+                return o[1].path if attr == "__file__" else o[1].name
             raise AnalysisError(f"evaluator: module attribute {attr}")
         if isinstance(o, Stub):
             n = f"{o.name}.{attr}"
